@@ -9,12 +9,59 @@ use emmylua_parser::VisibilityKind;
 use rowan::TextRange;
 
 pub fn export(db: &DbIndex) -> Index {
+    // The index maps are hash maps: sort every exported list so that exporting the same
+    // workspace twice gives byte-identical output.
+    let mut modules = export_modules(db);
+    modules.sort_by(|a, b| a.name.cmp(&b.name).then_with(|| a.file.cmp(&b.file)));
+
+    let mut types = export_types(db);
+    types.sort_by(|a, b| type_sort_key(a).cmp(&type_sort_key(b)));
+
+    let mut globals = export_globals(db);
+    globals.sort_by(|a, b| global_sort_key(a).cmp(&global_sort_key(b)));
+
     Index {
-        modules: export_modules(db),
-        types: export_types(db),
-        globals: export_globals(db),
-        config: db.get_emmyrc().clone(),
+        modules,
+        types,
+        globals,
+        // The config contains hash maps (e.g. `diagnostics.severity`): order their keys.
+        config: sort_object_keys(serde_json::to_value(db.get_emmyrc()).unwrap_or_default()),
     }
+}
+
+fn sort_object_keys(value: serde_json::Value) -> serde_json::Value {
+    match value {
+        serde_json::Value::Object(map) => {
+            let mut entries: Vec<(String, serde_json::Value)> = map.into_iter().collect();
+            entries.sort_by(|a, b| a.0.cmp(&b.0));
+            serde_json::Value::Object(
+                entries
+                    .into_iter()
+                    .map(|(key, value)| (key, sort_object_keys(value)))
+                    .collect(),
+            )
+        }
+        serde_json::Value::Array(items) => {
+            serde_json::Value::Array(items.into_iter().map(sort_object_keys).collect())
+        }
+        other => other,
+    }
+}
+
+fn type_sort_key(typ: &Type) -> (&str, u8) {
+    match typ {
+        Type::Class(class) => (class.name.as_str(), 0),
+        Type::Enum(enum_) => (enum_.name.as_str(), 1),
+        Type::Alias(alias) => (alias.name.as_str(), 2),
+    }
+}
+
+fn global_sort_key(global: &Global) -> (&str, Option<(&std::path::Path, usize)>) {
+    let (name, loc) = match global {
+        Global::Table(table) => (table.name.as_str(), table.loc.as_ref()),
+        Global::Field(field) => (field.name.as_str(), field.loc.as_ref()),
+    };
+    (name, loc.map(|loc| (loc.file.as_path(), loc.line)))
 }
 
 fn export_modules(db: &DbIndex) -> Vec<Module> {
@@ -361,11 +408,14 @@ fn export_property(db: &DbIndex, semantic_decl: &LuaSemanticDeclId) -> Property 
 
 fn export_loc_for_type(db: &DbIndex, type_decl: &LuaTypeDecl) -> Vec<Loc> {
     let vfs = db.get_vfs();
-    type_decl
+    let mut locs: Vec<Loc> = type_decl
         .get_locations()
         .iter()
         .filter_map(|loc| export_loc(vfs, loc.file_id, loc.range))
-        .collect()
+        .collect();
+    // The locations of a type declared in several files are recorded in indexing order.
+    locs.sort_by(|a, b| a.file.cmp(&b.file).then_with(|| a.line.cmp(&b.line)));
+    locs
 }
 
 fn export_loc(vfs: &Vfs, file_id: FileId, range: TextRange) -> Option<Loc> {
